@@ -703,6 +703,8 @@ type Plugin struct {
 	MutateCaps   bool              // GetCapabilities returns the same slice every time, updated in place
 	HandlerVeto  int               // 1-based index of the UPDATE whose handler returns VetoNotif (0 = never)
 	HandlerDelay time.Duration     // time spent inside every handler call
+	VetoEcho     int               // 1-based index of the UPDATE answered with a NOTIFICATION whose data is a slice of it
+	EstDelay     time.Duration     // time spent inside OnEstablished before its writes
 	VetoNotif    *bgp.Notification
 	NilHandler   bool
 	// WriteUpdate calls issued from inside callbacks
@@ -712,6 +714,7 @@ type Plugin struct {
 	// writers started when the session establishes: each goroutine writes its bodies in order
 	Writers     [][][]byte
 	WriterPause time.Duration
+	WriterStart time.Duration // the writers wait that long after OnEstablished before their first write
 
 	nUpdates  int
 	delivered [][]byte // private copies for the aliasing monitor
@@ -781,6 +784,9 @@ func (pl *Plugin) OnEstablished(c bgp.PeerConfig, w bgp.UpdateMessageWriter) bgp
 	pl.nUpdates = 0
 	pl.mu.Unlock()
 	pl.tr().log(pl.peer.key, "cb.enter", "OnEstablished", g, wid)
+	if pl.EstDelay > 0 {
+		time.Sleep(pl.EstDelay)
+	}
 	for _, b := range pl.WriteInEstablished {
 		pl.write(w, wid, append([]byte{byte(pl.writerSeq)}, b...))
 	}
@@ -792,6 +798,9 @@ func (pl *Plugin) OnEstablished(c bgp.PeerConfig, w bgp.UpdateMessageWriter) bgp
 		pl.wg.Add(1)
 		go func() {
 			defer pl.wg.Done()
+			if pl.WriterStart > 0 {
+				time.Sleep(pl.WriterStart)
+			}
 			for _, b := range bodies {
 				if pl.write(w, wid, b) != nil {
 					return
@@ -815,6 +824,7 @@ func (pl *Plugin) OnEstablished(c bgp.PeerConfig, w bgp.UpdateMessageWriter) bgp
 		pl.slices = append(pl.slices, u)
 		pl.mu.Unlock()
 		pl.tr().log(pl.peer.key, "cb.enter", "handler", g, hx(u))
+		entry := append([]byte(nil), u...)
 		for _, b := range pl.WriteInHandler {
 			pl.write(w, wid, append([]byte{byte(pl.writerSeq), byte(k)}, b...))
 		}
@@ -824,6 +834,17 @@ func (pl *Plugin) OnEstablished(c bgp.PeerConfig, w bgp.UpdateMessageWriter) bgp
 		var n *bgp.Notification
 		if pl.HandlerVeto == k {
 			n = pl.VetoNotif
+		}
+		if pl.VetoEcho == k && len(u) > 0 {
+			// the NOTIFICATION carries a slice of the UPDATE it complains about (as UpdateNotificationFromErr builds it);
+			// what is recorded as returned is the content at the time of the call
+			kk := len(u)
+			if kk > 12 {
+				kk = 12
+			}
+			n = &bgp.Notification{Code: 3, Subcode: 1, Data: u[:kk]}
+			pl.tr().log(pl.peer.key, "cb.exit", "handler", g, notifTerm(&bgp.Notification{Code: 3, Subcode: 1, Data: append([]byte(nil), entry[:kk]...)}))
+			return n
 		}
 		pl.tr().log(pl.peer.key, "cb.exit", "handler", g, notifTerm(n))
 		return n
